@@ -257,8 +257,21 @@ pub fn project(payload: &[u8], reported_hash: &[u8], hctx: Option<&HashCtx>) -> 
             Some(_) => json!({"k": "invalid"}),
             None => json!({"k": "none"}),
         };
+        // script_ref = #6.24(bytes .cbor [language, script]); a native script is reported as its own bytes
+        let script_v = match script.map(|x| &x.v) {
+            None => json!({"k": "none"}),
+            Some(Cbor::Tag(24, inner)) => match inner.as_bytes().map(|b| (b, cbor::parse(b))) {
+                Some((b, Ok(sc))) => match sc.as_list() {
+                    Some([lang, body]) if lang.as_u64().is_some() => json!({"k": "some", "lang": lang.as_u64().unwrap(),
+                        "v": bytes_to(if lang.as_u64() == Some(0) { body.raw(b) } else { body.as_bytes().unwrap_or(&[]) })}),
+                    _ => json!({"k": "invalid"}),
+                },
+                _ => json!({"k": "invalid"}),
+            },
+            Some(_) => json!({"k": "invalid"}),
+        };
         json!({"address": bytes_to(addr.and_then(|a| a.as_bytes()).unwrap_or(&[])), "lovelace": lovelace,
-               "assets": assets, "datum": datum_v, "has_script_ref": script.is_some()})
+               "assets": assets, "datum": datum_v, "has_script_ref": script.is_some(), "script_ref": script_v})
     }).collect();
     let mint = body.map_get(9).map(|m| multiasset(m, &mut empties, &mut dups, "mint"));
     let withdrawals: Option<Vec<Value>> = body.map_get(5).map(|w| {
@@ -274,6 +287,27 @@ pub fn project(payload: &[u8], reported_hash: &[u8], hctx: Option<&HashCtx>) -> 
     let reference_inputs = set_field(body, 18, "reference_inputs", &mut empties, &mut dups);
     let collateral = set_field(body, 13, "collateral", &mut empties, &mut dups);
     let certs = body.map_get(4).and_then(|c| c.as_list()).map(|l| { if l.is_empty() { empties.push("certificates".into()); } l.len() });
+    // certificates in order: [kind, credential [0 key | 1 script, hash], drep [0 key | 1 script, hash] | [2] | [3]] for vote delegation (kind 9)
+    let cert_list: Vec<Value> = body.map_get(4).and_then(|c| c.as_list()).unwrap_or(&[]).iter().map(|c| {
+        let l = c.as_list().unwrap_or(&[]);
+        let kind = l.first().and_then(|x| x.as_u64()).unwrap_or(999);
+        let pair = |it: Option<&Item>| -> (u64, Vec<u8>) {
+            let p = it.and_then(|x| x.as_list()).unwrap_or(&[]);
+            (p.first().and_then(|x| x.as_u64()).unwrap_or(999), p.get(1).and_then(|x| x.as_bytes()).unwrap_or(&[]).to_vec())
+        };
+        let (ck, cred) = pair(l.get(1));
+        let (dk, drep) = pair(l.get(2));
+        json!({"kind": kind, "cred_kind": ck, "cred": bytes_to(&cred), "drep_kind": dk, "drep": bytes_to(&drep), "arity": l.len()})
+    }).collect();
+    {
+        let mut seen = std::collections::BTreeSet::new();
+        for c in &cert_list {
+            if !seen.insert(c.to_string()) {
+                dups.push("certificates".into());
+                break;
+            }
+        }
+    }
 
     // witness set
     let mut redeemers = vec![];
@@ -324,6 +358,18 @@ pub fn project(payload: &[u8], reported_hash: &[u8], hctx: Option<&HashCtx>) -> 
             None => 0,
         }
     };
+    // the scripts the witness set carries: (language, bytes); a native script is reported as its own bytes
+    let mut scripts: Vec<Value> = vec![];
+    for (key, lang) in [(1u64, 0u64), (3, 1), (6, 2), (7, 3)] {
+        for it in wit.map_get(key).and_then(|x| x.as_list()).unwrap_or(&[]) {
+            let v = if lang == 0 { it.raw(payload).to_vec() } else { it.as_bytes().unwrap_or(&[]).to_vec() };
+            let j = json!({"lang": lang, "v": bytes_to(&v)});
+            if scripts.contains(&j) {
+                dups.push("witness_scripts".into());
+            }
+            scripts.push(j);
+        }
+    }
     let native = count(1, "native_scripts", &mut empties);
     let v1 = count(3, "plutus_v1", &mut empties);
     let v2 = count(6, "plutus_v2", &mut empties);
@@ -388,7 +434,7 @@ pub fn project(payload: &[u8], reported_hash: &[u8], hctx: Option<&HashCtx>) -> 
         "reference_inputs": reference_inputs.unwrap_or_default(),
         "collateral": collateral.unwrap_or_default(),
         "network_id": opt_int(15), "donation": opt_int(22),
-        "certificates": certs.unwrap_or(0),
+        "certificates": certs.unwrap_or(0), "certs": cert_list, "scripts": scripts,
         "aux_present": aux_present, "aux_hash_present": aux_hash.is_some(), "aux_hash_ok": aux_hash_ok,
         "metadata": metadata,
         "redeemers": redeemers, "redeemers_present": redeemers_item.is_some(),
